@@ -14,9 +14,10 @@
 (*   k0    ghost: ordinal (1..) of the first of them among the audio       *)
 (*         packets of its link                                             *)
 (* LT is the link table of VFOpen (off ser doff first len), BL[i] = <<bs0, *)
-(* bs1>> the block sizes of link i.  Half rate is not modelled (hs = 0).   *)
+(* bs1>> the block sizes of link i.                                        *)
 (*                                                                         *)
-(* The handle: [rs, link, ser, off, d, os, pos]                            *)
+(* The handle: [rs, link, ser, off, d, os, pos, hs, sk]  (hs: half-rate    *)
+(* flag, sk: seekable)                                                     *)
 (*   rs    ready_state (2 OPENED, 3 STREAMSET, 4 INITSET)                  *)
 (*   link  current_link (1-based), ser current_serialno                    *)
 (*   off   pcm_offset                                                      *)
@@ -64,22 +65,28 @@ OsPop(os) == IF os.q = <<>> THEN os ELSE [os EXCEPT !.q = Tail(@), !.pno = @ + 1
 NextPage(PG, vf) == LET q == PageAt(PG, vf.pos) IN IF q = 0 THEN [r |-> 0, pos |-> DataEnd(PG)] ELSE [r |-> q, pos |-> PG[q].off + PG[q].len]
 
 DecodeClear(vf) == [vf EXCEPT !.rs = OPENED]
-MakeReady(BL, vf) == IF vf.rs # STREAMSET THEN vf ELSE [vf EXCEPT !.rs = INITSET, !.d = BK!DecRestart(BL[vf.link], 0)]
-Restart(BL, vf) == IF vf.rs = INITSET THEN [vf EXCEPT !.d = BK!DecRestart(BL[vf.link], 0)] ELSE vf           \* vorbis_synthesis_restart does nothing on a cleared state
+MakeReady(BL, vf) == IF vf.rs # STREAMSET THEN vf ELSE [vf EXCEPT !.rs = INITSET, !.d = BK!DecRestart(BL[vf.link], vf.hs)]
+Restart(BL, vf) == IF vf.rs = INITSET THEN [vf EXCEPT !.d = BK!DecRestart(BL[vf.link], vf.hs)] ELSE vf           \* vorbis_synthesis_restart does nothing on a cleared state
 
 (* _fetch_and_process_packet(vf, NULL, readp, spanp): [ret, vf] *)
+\* streaming: _fetch_headers(vf, vi, vc, NULL, NULL, &og) with the page in hand (index cur), then on with the new link
+RECURSIVE StreamLink(_, _, _, _, _, _, _, _)
+\* (a streaming handle - sk = FALSE - knows no link table: it takes the next link from the headers it meets, LT only says which block sizes a serial
+\*  number has; positions are then the stream's own granule positions)
 RECURSIVE Fetch(_, _, _, _, _, _, _)
 Fetch(PG, LT, BL, vf0, readp, spanp, fuel) ==
   IF fuel = 0 THEN [ret |-> -999, vf |-> vf0]
   ELSE
-  LET vf == MakeReady(BL, vf0) IN
+  LET bl == IF vf0.sk THEN vf0.link ELSE vf0.bl                             \* whose block sizes the decoder has (streaming: the link whose headers were read)
+      vf == IF vf0.rs # STREAMSET THEN vf0 ELSE [vf0 EXCEPT !.rs = INITSET, !.d = BK!DecRestart(BL[bl], vf0.hs)] IN
   IF vf.rs = INITSET /\ vf.os.q # <<>>
   THEN LET p == Head(vf.os.q)  no == vf.os.pno  v1 == [vf EXCEPT !.os = OsPop(@)] IN
        IF p.w = -1 THEN Fetch(PG, LT, BL, v1, readp, spanp, fuel - 1)                                      \* not audio: vorbis_synthesis refuses it, next packet
        ELSE IF BK!DecAvail(v1.d) > 0 THEN [ret |-> OV_EFAULT, vf |-> v1]
-       ELSE LET d2 == [BK!DecBlockin(BL[vf.link], v1.d, p.w, no, p.g, p.eos, TRUE) EXCEPT !.seq = no]
+       ELSE LET d2 == [BK!DecBlockin(BL[bl], v1.d, p.w, no, p.g, p.eos, TRUE) EXCEPT !.seq = no]
                 off2 == IF p.g # -1 /\ ~p.eos
-                        THEN Clamp0(p.g - LT[vf.link].first) - BK!DecAvail(d2) + SumLen(LT, vf.link - 1)
+                        THEN IF vf.sk THEN Clamp0(p.g - LT[vf.link].first) - BK!ShlI(BK!DecAvail(d2), vf.hs) + SumLen(LT, vf.link - 1)
+                             ELSE Clamp0(p.g) - BK!ShlI(BK!DecAvail(d2), vf.hs)
                         ELSE v1.off
             IN [ret |-> 1, vf |-> [v1 EXCEPT !.d = d2, !.off = off2, !.gk = p.k]]
   ELSE IF ~readp THEN [ret |-> 0, vf |-> vf]
@@ -88,26 +95,36 @@ Fetch(PG, LT, BL, vf0, readp, spanp, fuel) ==
        ELSE LET p == PG[n.r]  v1 == [vf EXCEPT !.pos = n.pos] IN
             IF vf.rs = INITSET /\ vf.ser # p.ser
             THEN IF ~p.bos THEN Fetch(PG, LT, BL, v1, readp, spanp, fuel - 1)                               \* a multiplexed stream: next page
-                 ELSE IF ~spanp THEN [ret |-> OV_EOF, vf |-> [vf EXCEPT !.pos = p.off]]                     \* the page is put back
+                 ELSE IF ~spanp THEN [ret |-> OV_EOF, vf |-> IF vf.sk THEN [vf EXCEPT !.pos = p.off] ELSE v1]    \* the page is put back (if the source can seek)
+                 ELSE IF ~vf.sk THEN StreamLink(PG, LT, BL, DecodeClear(v1), n.r, readp, spanp, fuel)
                  ELSE LET v2 == DecodeClear(v1)  lk == LinkOfSerial(LT, p.ser) IN
                       IF lk = 0 THEN Fetch(PG, LT, BL, v2, readp, spanp, fuel - 1)
                       ELSE Fetch(PG, LT, BL, [v2 EXCEPT !.ser = p.ser, !.link = lk, !.rs = STREAMSET, !.os = PageIn(OsReset(p.ser), p)], readp, spanp, fuel - 1)
+            ELSE IF vf.rs < STREAMSET /\ ~vf.sk THEN StreamLink(PG, LT, BL, v1, n.r, readp, spanp, fuel)
             ELSE IF vf.rs < STREAMSET
             THEN LET lk == LinkOfSerial(LT, p.ser) IN
                  IF lk = 0 THEN Fetch(PG, LT, BL, v1, readp, spanp, fuel - 1)
                  ELSE Fetch(PG, LT, BL, [v1 EXCEPT !.ser = p.ser, !.link = lk, !.rs = STREAMSET, !.os = PageIn(OsReset(p.ser), p)], readp, spanp, fuel - 1)
             ELSE Fetch(PG, LT, BL, [v1 EXCEPT !.os = PageIn(@, p)], readp, spanp, fuel - 1)
 
+StreamLink(PG, LT, BL, vf, cur, readp, spanp, fuel) ==
+  LET VS == { LT[i].ser : i \in 1..Len(LT) }
+      KS == [chunk |-> 65536, near |-> 0, read |-> 2048, backup |-> "begin", handover |-> "refetch", clamp |-> TRUE]
+      h == FetchBos(PG, VS, [off |-> vf.pos, base |-> vf.pos, probes |-> <<>>], cur, <<>>, FALSE, 0, KS, Len(PG) + 2) IN
+  IF ~h.ok THEN [ret |-> -133, vf |-> [vf EXCEPT !.pos = h.rd.off, !.rs = OPENED]]
+  ELSE Fetch(PG, LT, BL, [vf EXCEPT !.pos = h.rd.off, !.rs = STREAMSET, !.ser = IF vf.pinser THEN PG[cur].ser ELSE h.vser, !.link = @ + 1, !.bl = LinkOfSerial(LT, h.vser),          \* (pinser pins the rule "the serial number of the page in hand")
+                                   !.os = [ser |-> h.vser, q |-> <<>>, pno |-> 3, fresh |-> FALSE]], readp, spanp, fuel - 1)
+
 (* ov_read_float(vf, len): [ret, vf, dl]; dl = what was delivered: [link, k, j, n, t0] = n samples, the first being sample j (0..) of those
    the decoder produced from audio packet k of the link, with pcm_offset t0 before the call returned them; n = 0: nothing *)
-NoDelivery == [link |-> 0, k |-> 0, j |-> 0, n |-> 0, t0 |-> 0]
+NoDelivery == [link |-> 0, k |-> 0, j |-> 0, n |-> 0, t0 |-> 0, hs |-> 0]
 RECURSIVE ReadLoop(_, _, _, _, _, _)
 ReadLoop(PG, LT, BL, vf, len, fuel) ==
   IF fuel = 0 THEN [ret |-> -999, vf |-> vf, dl |-> NoDelivery]
   ELSE IF vf.rs = INITSET /\ BK!DecAvail(vf.d) > 0
   THEN LET m == IF BK!DecAvail(vf.d) > len THEN len ELSE BK!DecAvail(vf.d) IN
-       [ret |-> m, vf |-> [vf EXCEPT !.d = BK!DecRead(@, m), !.off = @ + m],
-        dl |-> [link |-> vf.link, k |-> vf.gk, j |-> vf.d.ret - vf.d.centerW, n |-> m, t0 |-> vf.off]]
+       [ret |-> m, vf |-> [vf EXCEPT !.d = BK!DecRead(@, m), !.off = @ + BK!ShlI(m, vf.hs)],
+        dl |-> [link |-> vf.link, k |-> vf.gk, j |-> vf.d.ret - vf.d.centerW, n |-> m, t0 |-> vf.off, hs |-> vf.hs]]
   ELSE LET f == Fetch(PG, LT, BL, vf, TRUE, TRUE, 4 * Len(PG) + 8) IN
        IF f.ret = OV_EOF THEN [ret |-> 0, vf |-> f.vf, dl |-> NoDelivery]
        ELSE IF f.ret <= 0 THEN [ret |-> f.ret, vf |-> f.vf, dl |-> NoDelivery]
@@ -227,13 +244,15 @@ Discard(PG, LT, BL, vf, lastblock, target, K, fuel) ==
 \* loop 2: decoded samples before the target are dropped
 RECURSIVE Drop(_, _, _, _, _, _)
 Drop(PG, LT, BL, vf, target, fuel) ==
+  LET hs == vf.hs  lim == IF hs = 1 THEN 2 * (target \div 2) ELSE target IN          \* while(pcm_offset < ((pos>>hs)<<hs))
   IF fuel = 0 THEN [ret |-> -999, vf |-> vf]
-  ELSE IF ~(vf.off < target) THEN [ret |-> 0, vf |-> vf]
-  ELSE LET want == target - vf.off
+  ELSE IF ~(vf.off < lim) THEN [ret |-> 0, vf |-> vf]
+  ELSE LET want == BK!ShrI(target - vf.off, hs)
            have == IF vf.rs = INITSET THEN BK!DecAvail(vf.d) ELSE 0
            m == IF have > want THEN want ELSE have
-           v1 == IF m > 0 THEN [vf EXCEPT !.d = BK!DecRead(@, m), !.off = @ + m] ELSE vf
-       IN IF m < want
+           v1 == IF m > 0 THEN [vf EXCEPT !.d = BK!DecRead(@, m), !.off = @ + BK!ShlI(m, hs)] ELSE vf
+       IN IF want <= 0 THEN [ret |-> 0, vf |-> vf]          \* half rate: less than one output sample left to discard
+          ELSE IF m < want
           THEN LET f == Fetch(PG, LT, BL, v1, TRUE, TRUE, 4 * Len(PG) + 8) IN
                IF f.ret = -999 THEN [ret |-> -999, vf |-> f.vf]
                ELSE IF f.ret <= 0 THEN Drop(PG, LT, BL, [f.vf EXCEPT !.off = Total(LT)], target, fuel - 1)
@@ -246,8 +265,24 @@ PcmSeek(PG, LT, BL, vf, target, K) ==
            a == Discard(PG, LT, BL, v1, 0, target, K, 4 * Len(PG) + 8) IN
        IF a.ret # 0 THEN a ELSE Drop(PG, LT, BL, a.vf, target, 8 * Len(PG) + 16)
 
+(* ov_halfrate(vf, flag) on a stream all of whose links accept it: [ret, vf] *)
+HalfRate(PG, LT, BL, vf, flag, K) ==
+  LET reseek == vf.rs > STREAMSET
+      v1 == [vf EXCEPT !.rs = IF reseek THEN STREAMSET ELSE @, !.hs = flag] IN
+  IF reseek /\ v1.off >= 0
+  THEN LET s == PcmSeek(PG, LT, BL, [v1 EXCEPT !.off = -1], v1.off, K) IN [ret |-> IF s.ret = -999 THEN -999 ELSE 0, vf |-> s.vf]
+  ELSE [ret |-> 0, vf |-> v1]
+
 (* the handle as _open_seekable2 leaves it: link table built, then ov_raw_seek(dataoffsets[0]) *)
 Opened(PG, LT, BL) ==
-  LET v0 == [rs |-> OPENED, link |-> 1, ser |-> LT[1].ser, off |-> -1, d |-> BK!DecRestart(BL[1], 0), os |-> OsReset(LT[1].ser), pos |-> 0, gk |-> 0]
+  LET v0 == [rs |-> OPENED, link |-> 1, ser |-> LT[1].ser, off |-> -1, d |-> BK!DecRestart(BL[1], 0), os |-> OsReset(LT[1].ser), pos |-> 0, gk |-> 0, hs |-> 0, sk |-> TRUE, pinser |-> FALSE, bl |-> 1]
   IN RawSeek(PG, LT, BL, v0, LT[1].doff)
+(* a streaming handle after ov_open_callbacks: the headers of the first link read, nothing else *)
+OpenedStreaming(PG, LT, BL) ==
+  LET VS == { LT[i].ser : i \in 1..Len(LT) }
+      KS == [chunk |-> 65536, near |-> 0, read |-> 2048, backup |-> "begin", handover |-> "refetch", clamp |-> TRUE]
+      h == FetchHeaders(PG, VS, [off |-> 0, base |-> 0, probes |-> <<>>], KS) IN
+  IF ~h.ok THEN [ret |-> -132, vf |-> <<>>]
+  ELSE [ret |-> 0, vf |-> [rs |-> STREAMSET, link |-> 1, ser |-> h.vser, off |-> 0, d |-> BK!DecRestart(BL[1], 0), os |-> [ser |-> h.vser, q |-> <<>>, pno |-> 3, fresh |-> FALSE],
+                           pos |-> h.rd.off, gk |-> 0, hs |-> 0, sk |-> FALSE, pinser |-> FALSE, bl |-> LinkOfSerial(LT, h.vser)]]
 =============================================================================
